@@ -30,7 +30,8 @@ func (c *configure) AddLoaders(loaders ...Loader) {
 }
 
 func (c *configure) SetLoaders(loaders ...Loader) {
-	c.loaders = loaders
+	//keep an own list: the caller's slice may be shared with another configuration, adding to one must not write into it
+	c.loaders = append([]Loader(nil), loaders...)
 }
 
 func (c *configure) SetBinder(binder Binder) {
